@@ -11,12 +11,13 @@ from vp.model.plain import canon, cscalar, anchor_of, positions, is_seq
 ID = "C10"
 LEVEL = "exploration"
 NAMES = ["x", "y", "x_1"]
-VALUES = [1, 2, "", False, "s", 2.5]
+VALUES = [1, 2, "", False, "s", 2.5, True, 2.0]      # true == 1, 2.0 == 2
 POLICIES = ["stop", "left", "right", "rename"]
 RULE = ("E1: left documents {a: &N v, [b: *N], [c: [*N, 7]], [l2: &N2 5, "
         "l3: *N2]} and right documents {d: &M w, [e: *M], [f: [9, *M]], "
         "[r2: &M2 6, r3: *M2]} for every N, M in {x, y, x_1}, v, w in "
-        "{1, 2, '', false, 's', 2.5} (falsy values keep their anchor; no two pool values are equal across types), "
+        "{1, 2, '', false, 's', 2.5, true, 2.0} (falsy values keep their anchor; "
+        "true/1 and 2/2.0 are equal only to Python), "
         "every alias placement, optional second anchors from the same pool "
         "(so rename targets can collide), each side optionally wrapped whole "
         "in an anchored hash that is aliased once more (so every scalar "
